@@ -418,7 +418,25 @@ def main():
         spec = json.load(f)
     out = {"status": "ok", "violations": []}
     try:
-        if spec["mode"] == "c17":
+        if spec.get("replay_text") is not None:
+            # one text: run it, report what happens (c17: exception family / termination; c11: against the reference)
+            text = spec["replay_text"]
+            r = run_query(text, make_ds())
+            bad = []
+            if r[0] == "timeout":
+                bad.append({"text": text, "problem": "did not terminate within 2 s"})
+            elif r[0] == "raise" and classify(r[1], r[2]) == "escape":
+                bad.append({"text": text, "problem": f"{type(r[1]).__name__}: {r[1]} escaped"})
+            if spec["mode"] == "c11":
+                try:
+                    want = ("value", canon(ref_eval(text, make_ds())))
+                except Exception as e:
+                    want = ("raise", type(e).__name__)
+                if want[0] == "value" and (r[0] != "value" or canon(r[1]) != want[1]):
+                    bad.append({"text": text, "problem": f"aw_query: {r[0]} {str(r[1])[:160]}; the text denotes {json.dumps(want[1], default=str)[:160]}"})
+            out["runs"] = 1
+            out["observed"] = [r[0], str(r[1])[:300]]
+        elif spec["mode"] == "c17":
             bad, stats = c17(spec.get("seed", 0), spec.get("n", 3000))
             out["stats"] = stats
             out["runs"] = sum(stats.values()) + len(bad)
